@@ -46,8 +46,13 @@ Record sblob := { b_usage : Z; b_alg : Z; b_spec : Z; b_halg : Z; b_salt : bytes
 (* GNU extension (specifier 101): no IV, no secret; [rest] is whatever followed in the packet *)
 Inductive blob := BStd (b : sblob) | BGnu (usage alg ext : Z) (serial rest : bytes).
 
-(* String2Key.__bytearray__ for usage 254/255 *)
+(* String2Key.legacy (repair 8563c06): RFC 4880 5.5.3 -- a usage octet other than 0, 254 and 255 is the id of the cipher that
+   protects the secret key material; no specifier is stored (implied: Simple S2K with MD5), only the IV follows *)
+Definition legacy (u : Z) : bool := negb ((u =? 0) || (u =? 254) || (u =? 255)).
+(* String2Key.__bytearray__ for a protected key: usage 254/255 with the specifier, or the legacy form usage + IV *)
 Definition s2k_emit_std (b : sblob) : bytes :=
+  if legacy (b_usage b) then [b_usage b] ++ b_iv b
+  else
   [b_usage b; b_alg b; b_spec b; b_halg b]
   ++ (if 1 <=? b_spec b then b_salt b else [])
   ++ (if b_spec b =? 3 then [b_count b] else [])
@@ -69,7 +74,9 @@ Definition blob_emit (bl : blob) : bytes :=
   end.
 
 (* String2Key.parse followed by `self.encbytes = packet` (RSA / ECC classes).  None = exception.
-   inl u  = usage octet u is neither 254 nor 255 (PGPy then reads the secret MPIs in the clear) *)
+   inl 0  = usage octet 0 (PGPy then reads the secret MPIs in the clear).  Since repair 8563c06 any other usage octet
+   than 0 / 254 / 255 is the legacy form: encalg = usage (ValueError when it is not a cipher id), specifier Simple (0),
+   hash MD5 (1), then the IV of the cipher's block size *)
 Definition s2k_parse (p : bytes) : option ((Z + blob) * bytes) :=
   match p with
   | [] => None
@@ -115,7 +122,15 @@ Definition s2k_parse (p : bytes) : option ((Z + blob) * bytes) :=
         else None
       | _ => None
       end
-    else Some (inl u, r)
+    else if u =? 0 then Some (inl u, r)
+    else if valid_symalg u then
+      match block_octets u with
+      | Some bs =>
+        Some (inr (BStd {| b_usage := u; b_alg := u; b_spec := 0; b_halg := 1; b_salt := []; b_count := 0;
+                           b_iv := firstn (Z.to_nat bs) r; b_enc := skipn (Z.to_nat bs) r |}), [])
+      | None => None
+      end
+    else None
   end.
 
 Section Prims.
@@ -141,12 +156,18 @@ Section Prims.
     ++ cfb_enc alg (s2k 3 halg alg salt count pass) iv (secret_plain mpis ++ sha1 (secret_plain mpis)).
 
   (* ---------- PrivKey.decrypt_keyblob ---------- *)
+  (* since repair 8563c06 the 16-bit checksum is checked whenever the usage octet is not 254 (255 or a cipher id) *)
   Definition gate (usage : Z) (pt : bytes) : bool :=
+    if usage =? 254 then eqb_bytes (lastn 20 pt) (sha1 (firstn (length pt - 20) pt))
+    else unbe (lastn 2 pt) =? sumz (firstn (length pt - 2) pt) mod 65536.
+  (* the rule before: nothing was checked for a usage octet other than 254 / 255 *)
+  Definition gate_old (usage : Z) (pt : bytes) : bool :=
     if usage =? 254 then eqb_bytes (lastn 20 pt) (sha1 (firstn (length pt - 20) pt))
     else if usage =? 255 then unbe (lastn 2 pt) =? sumz (firstn (length pt - 2) pt) mod 65536
     else true.
 
-  Inductive ures := UOk (ms : list Z) (rest : bytes) | UBadPass | UError.
+  (* USkip = PrivKeyV4.unprotect returned at once: a GNU-extension stub has nothing to decrypt (repair 9a72221) *)
+  Inductive ures := UOk (ms : list Z) (rest : bytes) | UBadPass | UError | USkip.
 
   Definition decrypt_std (b : sblob) (pass : bytes) : bytes :=
     cfb_dec (b_alg b) (s2k (b_spec b) (b_halg b) (b_alg b) (b_salt b) (b_count b) pass) (b_iv b) (b_enc b).
@@ -155,9 +176,10 @@ Section Prims.
     let pt := decrypt_std b pass in
     if gate (b_usage b) pt then let '(ms, r) := parse_mpis n pt in UOk ms r else UBadPass.
 
-  (* GNU dummy: derive_key asks Plaintext (cipher 0) for its key size -> NotImplementedError *)
+  (* GNU dummy / smartcard stub: since repair 9a72221 PrivKeyV4.unprotect returns at once (before: derive_key asked Plaintext
+     (cipher 0) for its key size -> NotImplementedError) *)
   Definition unprotect_blob (n : nat) (bl : blob) (pass : bytes) : ures :=
-    match bl with BStd b => unprotect_std n b pass | BGnu _ _ _ _ _ => UError end.
+    match bl with BStd b => unprotect_std n b pass | BGnu _ _ _ _ _ => USkip end.
 
   (* DESIGN.md name: Some mpis on acceptance *)
   Definition unprotect (n : nat) (b : sblob) (pass : bytes) : option (list Z) :=
@@ -229,6 +251,7 @@ Section Prims.
           end
         | UBadPass => inl 1
         | UError => inl 2
+        | USkip => match enter_pkts pass r with inr r' => inr (c :: r') | inl k => inl k end   (* the stub stays as it is *)
         end
       end
     end.
@@ -262,25 +285,33 @@ Section Prims.
   Definition primary_protected (k : list pkt) : bool := match k with c :: _ => protected c | [] => false end.
   Definition primary_unlocked (k : list pkt) : bool := match k with c :: _ => unlocked_flag c | [] => true end.
 
-  (* KeyAction.check_attributes looks at the key the method was called on (the primary); PGPKey.decrypt then
-     re-dispatches to the subkey object, whose own decorator checks that subkey as well (check_sub = true) *)
-  Definition private_op (st : kst) (check_sub : bool) (i : nat) : kst * obs :=
-    if primary_unlocked (k_pkts st) then
+  (* KeyAction (since repair cab6d36) checks is_unlocked on the SELECTED component, the one that does the work: for sign that
+     is packet i alone (check_primary = false).  PGPKey.decrypt carries no usage flag, so its decorator selects (and
+     checks) the key it was called on, the primary; the body then re-dispatches to the subkey object, whose own decorator
+     checks that subkey (check_primary = true: both) *)
+  Definition private_op (st : kst) (check_primary : bool) (i : nat) : kst * obs :=
+    if check_primary && negb (primary_unlocked (k_pkts st)) then (st, BRefused)
+    else
       match nth_error (k_pkts st) i with
-      | Some c => if check_sub && negb (unlocked_flag c) then (st, BRefused) else (st, BUsed (p_fields c))
+      | Some c => if unlocked_flag c then (st, BUsed (p_fields c)) else (st, BRefused)
       | None => (st, BRaised 2)
-      end
-    else (st, BRefused).
+      end.
+
+  (* some component is protected and its secret fields are not there: PGPKey.protect then only warns (repair 080d1e8) *)
+  Definition locked_comp (c : pkt) : bool := protected c && negb (unlocked_flag c).
+  Definition any_locked (k : list pkt) : bool := existsb locked_comp k.
+  Definition any_protected (k : list pkt) : bool := existsb protected k.
 
   Definition step(st : kst) (o : op) : kst * obs :=
     let k := k_pkts st in
     match o with
     | OProtect pass alg halg count rnd =>
-      if primary_protected k && negb (primary_unlocked k) then (st, BWarned)
+      if any_locked k then (st, BWarned)
       else if can_encrypt alg then ({| k_pkts := protect_pkts pass alg halg count rnd k; k_scopes := k_scopes st |}, BDone)
       else (st, BRaised 2)         (* refused by the first packet: nothing installed, nothing cleared *)
     | OEnter pass =>
-      if negb (primary_protected k) then ({| k_pkts := k; k_scopes := false :: k_scopes st |}, BWarned)
+      (* repair a8a4c11: the warn-and-yield scope is taken only when NO component is protected *)
+      if negb (any_protected k) then ({| k_pkts := k; k_scopes := false :: k_scopes st |}, BWarned)
       else match enter_pkts pass k with
            | inr k' => ({| k_pkts := k'; k_scopes := true :: k_scopes st |}, BDone)
            | inl kind => ({| k_pkts := map relock k; k_scopes := k_scopes st |}, BRaised kind)
@@ -308,6 +339,20 @@ Section Prims.
   Definition add_sub_old (st : kst) (ms : list Z) (chk : bytes) : kst * obs :=
     ({| k_pkts := k_pkts st ++ [{| p_blob := None; p_fields := ms; p_chk := chk |}]; k_scopes := k_scopes st |},
      if primary_unlocked (k_pkts st) then BDone else BRefused).
+
+  (* the rules before repairs 080d1e8 / a8a4c11 looked at the primary key only *)
+  Definition protect_old (st : kst) (pass : bytes) (alg halg count : Z) (rnd : list (bytes * bytes)) : kst * obs :=
+    let k := k_pkts st in
+    if primary_protected k && negb (primary_unlocked k) then (st, BWarned)
+    else if can_encrypt alg then ({| k_pkts := protect_pkts pass alg halg count rnd k; k_scopes := k_scopes st |}, BDone)
+    else (st, BRaised 2).
+  Definition enter_old (st : kst) (pass : bytes) : kst * obs :=
+    let k := k_pkts st in
+    if negb (primary_protected k) then ({| k_pkts := k; k_scopes := false :: k_scopes st |}, BWarned)
+    else match enter_pkts pass k with
+         | inr k' => ({| k_pkts := k'; k_scopes := true :: k_scopes st |}, BDone)
+         | inl kind => ({| k_pkts := map relock k; k_scopes := k_scopes st |}, BRaised kind)
+         end.
 
   Definition run (ops : list op) (st : kst) : kst := fold_left (fun s o => fst (step s o)) ops st.
   Fixpoint run_obs (ops : list op) (st : kst) : list obs :=
@@ -368,7 +413,7 @@ Section Prims.
   Definition step_sym (st : kst) (syms : list sym) (o : op) : list sym :=
     match o with
     | OProtect pass alg halg count rnd =>
-      if primary_protected (k_pkts st) && negb (primary_unlocked (k_pkts st)) then syms
+      if any_locked (k_pkts st) then syms
       else if can_encrypt alg then protect_syms pass alg halg count rnd (k_pkts st) else syms
     | OAddSub ms chk =>
       if primary_unlocked (k_pkts st) then syms ++ [sym_of_pkt {| p_blob := None; p_fields := ms; p_chk := chk |}] else syms
